@@ -198,6 +198,10 @@ def decorate(shapes, seed=0, feat=frozenset()):
         else:
             raise ValueError(shape)
         is_q = not shape.startswith("begin")
+        if "instance_attrs" in feat and rnd.random() < (0.5 if not is_q else 0.15):
+            # custom attributes on the instance node (instance::x); on a repeat they must appear on the template copy as well
+            f.col("instance::kind")
+            row["instance::kind"] = f"k{n}"
         # label / hint / translations / media
         if labelled:
             text = f"Label {name}"
